@@ -4,12 +4,23 @@
   The ingredients of well-formedness, each for ALL strings / elements / configurations, about the writer
   model `Svgdx.Xml.Write` + `Svgdx.Xml.Escape` (tied to events.rs by the writer/events correspondence
   stream, byte for byte) and the root-attribute model `Svgdx.Doc.Root` (tied by the root_attrs stream of
-  C08). Their composition into "an independent parser accepts every output" is checked by the expat
-  oracle on generated documents (see `wellformed_output_partial` for what is and is not proved).
+  C08). Their COMPOSITION is in Props/C02Xml.lean (imported here, theorems listed at the end): an
+  independent recogniser written from the XML 1.0 productions (`Xml.Spec`, not from the writer) accepts
+  `write evs` for every balanced event list with XML names and unique attribute names
+  (`output_wellformed`), in the strict form with the Char production for everything the guarded writer
+  lets through (`output_wellformed_strict`, `guard_is_char_production`); the events the control
+  skeleton emits for ANY document whose elements have XML names and unique attributes satisfy those
+  hypotheses (`emitted_names_ok`, `emitted_attributes_unique` - an induction over the 15 functions with
+  an invariant on the stored reuse templates), the root rewrite of `postprocess` keeps them and keeps
+  the nesting (`postprocess_keeps_*`), hence `transform_written_wellformed_strict_and_fixed`: for every
+  input document, evaluator, fuel and configuration, what a successful run writes is well-formed and
+  is reproduced byte for byte by a second pass. Hypotheses are about the INPUT only. What remains to
+  the expat oracle: the auto-style / defs injection (Theme strings, C20) and quick-xml itself.
 -/
 import Svgdx.Proofs.XmlEscape
 import Svgdx.Proofs.XmlWrite
 import Svgdx.Proofs.Balanced
+import Svgdx.Props.C02Xml
 
 namespace Svgdx.Props.C02
 open Svgdx Xml
@@ -88,3 +99,20 @@ end Svgdx.Props.C02
 #print axioms Svgdx.Props.C02.attr_value_has_no_quote
 #print axioms Svgdx.Props.C02.output_tags_nested
 #print axioms Svgdx.Props.C02.nested_iff_checker
+#print axioms Svgdx.Props.C02.output_wellformed
+#print axioms Svgdx.Props.C02.output_wellformed_and_fixed
+#print axioms Svgdx.Props.C02.output_wellformed_strict
+#print axioms Svgdx.Props.C02.emitted_attributes_unique
+#print axioms Svgdx.Props.C02.reader_elements_unique
+#print axioms Svgdx.Props.C02.emitted_names_ok
+#print axioms Svgdx.Props.C02.transform_output_wellformed_and_fixed
+#print axioms Svgdx.Props.C02.demo_input_ok
+#print axioms Svgdx.Props.C02.postprocess_keeps_nesting
+#print axioms Svgdx.Props.C02.postprocess_invisible_to_checker
+#print axioms Svgdx.Props.C02.checker_stack_is_open_depth
+#print axioms Svgdx.Props.C02.postprocess_keeps_names_and_keys
+#print axioms Svgdx.Props.C02.postprocess_nested_empty_root_closed
+#print axioms Svgdx.Props.C02.postprocess_empty_root_encloses_tail
+#print axioms Svgdx.Props.C02.postprocess_unclosed_root_encloses_document
+#print axioms Svgdx.Props.C02.guard_is_char_production
+#print axioms Svgdx.Props.C02.transform_written_wellformed_strict_and_fixed
